@@ -7,7 +7,8 @@
    everything else of State                              = `s_rest`  (opaque, never touched)
    A FlowState keeps: flow_id, status (name of the FlowStatus member), status_updated (clock
    ticks), activated, parent_uid, child_flow_uids, action_uids, the matching scores of its heads,
-   and `i_rest` (every other field, opaque, never touched).
+   the flow uids of its open scopes (scopes[name][0]) and `i_rest` (every other field, opaque,
+   never touched).
 
    The function, in the order of the source:
      1. clear head.matching_scores of every head of every flow state;
@@ -16,6 +17,8 @@
      3. for each of them: if its parent_uid is set, the parent is (still) in flow_states and lists
         it as a child, remove it from the parent's child_flow_uids; remove it from
         flow_id_states[flow_id] (KeyError / ValueError = None); delete it from flow_states;
+     3b. (if anything was removed) drop the removed uids from the child_flow_uids of EVERY remaining
+        flow state and from the flow lists of their open scopes;
      4. rebuild `actions` from the action_uids of the remaining flow states, in order, first
         occurrence (KeyError = None).
    The constants of step 2 (age, direction of the comparison, the two other conjuncts, the
@@ -35,6 +38,7 @@ Record inst := mkInst {
   i_children : list string;
   i_actions : list string;
   i_heads : list (string * list Z);
+  i_scopes : list (string * list string);
   i_rest : Z
 }.
 
@@ -50,7 +54,9 @@ Record cfg := mkCfg {
   cmp_gt : bool;                 (* the source compares (now - status_updated) > age *)
   needs_done : bool;
   needs_not_activated : bool;
-  done_set : list string
+  done_set : list string;
+  purge_children : bool;         (* step 3b present in the source: child lists *)
+  purge_scopes : bool            (* step 3b present in the source: scope flow lists *)
 }.
 
 Fixpoint slook {A} (l : list (string * A)) (k : string) : option A :=
@@ -68,11 +74,11 @@ Fixpoint remove_first (s : string) (l : list string) : list string :=
   match l with [] => [] | x :: r => if String.eqb x s then r else x :: remove_first s r end.
 
 Definition set_children (i : inst) (ch : list string) : inst :=
-  mkInst (i_flow i) (i_status i) (i_updated i) (i_activated i) (i_parent i) ch (i_actions i) (i_heads i) (i_rest i).
+  mkInst (i_flow i) (i_status i) (i_updated i) (i_activated i) (i_parent i) ch (i_actions i) (i_heads i) (i_scopes i) (i_rest i).
 
 Definition clear_heads (i : inst) : inst :=
   mkInst (i_flow i) (i_status i) (i_updated i) (i_activated i) (i_parent i) (i_children i) (i_actions i)
-         (map (fun hs => (fst hs, @nil Z)) (i_heads i)) (i_rest i).
+         (map (fun hs => (fst hs, @nil Z)) (i_heads i)) (i_scopes i) (i_rest i).
 
 Definition is_done (c : cfg) (i : inst) : bool := smem (i_status i) (done_set c).
 
@@ -138,14 +144,29 @@ Definition to_remove (c : cfg) (now : Z) (s : state) : list string :=
 
 Definition all_action_uids (s : state) : list string := flat_map (fun kv => i_actions (snd kv)) (flows s).
 
+(* step 3b on one remaining flow state *)
+Definition keep_uids (rem : list string) (l : list string) : list string :=
+  filter (fun u => negb (smem u rem)) l.
+
+Definition purge_inst (c : cfg) (rem : list string) (i : inst) : inst :=
+  mkInst (i_flow i) (i_status i) (i_updated i) (i_activated i) (i_parent i)
+         (if purge_children c then keep_uids rem (i_children i) else i_children i)
+         (i_actions i) (i_heads i)
+         (if purge_scopes c then map (fun kl => (fst kl, keep_uids rem (snd kl))) (i_scopes i) else i_scopes i)
+         (i_rest i).
+
+Definition purge_flows (c : cfg) (rem : list string) (l : list (string * inst)) : list (string * inst) :=
+  map (fun kv => (fst kv, purge_inst c rem (snd kv))) l.
+
 Definition cleanup (c : cfg) (now : Z) (s : state) : option state :=
   let s1 := clear_scores s in
-  match fold_left remove_one (to_remove c now s1) (Some s1) with
+  let rem := to_remove c now s1 in
+  match fold_left remove_one rem (Some s1) with
   | None => None
   | Some s2 =>
     match rebuild_actions (actions s2) (all_action_uids s2) [] with
     | None => None
-    | Some acts => Some (mkState (flows s2) (by_flow s2) acts (s_rest s2))
+    | Some acts => Some (mkState (purge_flows c rem (flows s2)) (by_flow s2) acts (s_rest s2))
     end
   end.
 
@@ -169,12 +190,12 @@ Definition candidates (ix : index) (s : state) (name : string) : list (option (s
   match slook ix name with None => [] | Some es => map (resolve s) es end.
 
 (* sanity *)
-Definition ex_cfg : cfg := mkCfg 5 true true true ["FINISHED"; "STOPPED"].
+Definition ex_cfg : cfg := mkCfg 5 true true true ["FINISHED"; "STOPPED"] true true.
 Definition ex_state : state :=
   mkState
-    [ ("m", mkInst "main" "STARTED" 0 0 None ["a1"; "b1"] ["act1"] [("h0", [1; 2])] 0);
-      ("a1", mkInst "a" "FINISHED" 1 0 (Some "m") [] ["act1"; "act2"] [] 1);
-      ("b1", mkInst "b" "FINISHED" 1 1 (Some "m") [] ["act3"] [("h1", [3])] 2) ]
+    [ ("m", mkInst "main" "STARTED" 0 0 None ["a1"; "b1"] ["act1"] [("h0", [1; 2])] [("sc", ["a1"; "b1"])] 0);
+      ("a1", mkInst "a" "FINISHED" 1 0 (Some "m") [] ["act1"; "act2"] [] [] 1);
+      ("b1", mkInst "b" "FINISHED" 1 1 (Some "m") ["a1"] ["act3"] [("h1", [3])] [] 2) ]
     [ ("main", ["m"]); ("a", ["a1"]); ("b", ["b1"]) ]
     [ ("act1", 10); ("act2", 20); ("act3", 30) ]
     7.
@@ -182,8 +203,8 @@ Definition ex_state : state :=
 Example ex_cleanup :
   cleanup ex_cfg 10 ex_state
   = Some (mkState
-            [ ("m", mkInst "main" "STARTED" 0 0 None ["b1"] ["act1"] [("h0", [])] 0);
-              ("b1", mkInst "b" "FINISHED" 1 1 (Some "m") [] ["act3"] [("h1", [])] 2) ]
+            [ ("m", mkInst "main" "STARTED" 0 0 None ["b1"] ["act1"] [("h0", [])] [("sc", ["b1"])] 0);
+              ("b1", mkInst "b" "FINISHED" 1 1 (Some "m") [] ["act3"] [("h1", [])] [] 2) ]
             [ ("main", ["m"]); ("a", []); ("b", ["b1"]) ]
             [ ("act1", 10); ("act3", 30) ]
             7).
